@@ -8,14 +8,21 @@ from vlib import disc, gen_basic, ref_basic as rb, runtool
 from vlib.harness import CheckBase, Verdict
 
 DFS_COMMANDS = c07.COMMANDS
+GLOBALS = [["--ui", "acorn"], ["--ui", "watford"], ["--ui", "opus"], ["--verbose"], ["--show-config"], ["--dir", "B"],
+           ["--dir", "$"], ["--drive", "0"], ["--drive", "2"], ["--drive", "1"], ["--drive-first"], ["--drive-physical"]]
 
 
 @st.composite
 def case_st(draw):
     which = draw(st.sampled_from(["dfs-valid", "dfs-valid", "dfs-hostile", "dfs-hostile", "basic-valid", "basic-hostile",
-                                  "basic-nodialect"]))
+                                  "basic-nodialect", "dfs-cli"]))
     c = {"which": which, "seed": draw(st.integers(0, 10 ** 6))}
-    if which.startswith("dfs"):
+    if which == "dfs-cli":
+        c["cli"] = draw(c07.cli_case())
+    elif which.startswith("dfs"):
+        # other global options on the line (any of them may guard or feed an assertion)
+        c["globals"] = draw(st.lists(st.sampled_from(GLOBALS), max_size=3))
+        c["gpos"] = draw(st.integers(0, 3))
         img = draw(c07.image_case())
         if which == "dfs-valid":
             img["muts"] = []
@@ -38,7 +45,10 @@ class C19(CheckBase):
     level = "exploration"
     variants = ("dbg", "ndebug", "msan-basic")
     rule = ("the generators of C01-C03 (valid discs / programs) and of C07/C08 (structure-mutated images, hostile "
-            "BASIC inputs and command lines) plus the command-line corner 'no --dialect'; each case is run on the "
+            "BASIC inputs and command lines) plus the command-line corner 'no --dialect'; dfs command lines carry 0-3 "
+            "other global options (--ui, --verbose, --show-config, --dir, --drive, --drive-first/-physical) around "
+            "--file, and C07's generated dfs command lines (odd --file arguments, hostile values) are run too; each "
+            "case is run on the "
             "assertion-enabled default build and on the -DNDEBUG build: unless the assertion build dies with SIGABRT "
             "and 'Assertion' on stderr, stdout and exit status must be equal (a crash of the NDEBUG build where the "
             "default build exits normally is a violation); the MSan NDEBUG build of bbcbasic_to_text must be silent. "
@@ -97,7 +107,13 @@ class C19(CheckBase):
         which = case["which"]
         v.classes.append(which)
         with runtool.Sandbox("c19") as sb:
-            if which.startswith("dfs"):
+            if which == "dfs-cli":
+                args, _ = c07.cli_materialise(case["cli"], sb, sb.mkdir("out"))
+                args = [a.encode("latin-1") if any(ord(ch) > 127 for ch in a) else a for a in args]
+                a, b = self._pair(v, ctx, "dfs", args, sb.path, label="dfs (generated command line)")
+                if a.status == 0:
+                    v.nontrivial = True
+            elif which.startswith("dfs"):
                 ic = case["image"]
                 try:
                     data, bounds = c07.build_image(ic)
@@ -121,7 +137,14 @@ class C19(CheckBase):
                 for ci in case["cmds"]:
                     out = sb.mkdir("o%d" % ci)
                     cmd = [out if x == "OUT" else (nm if x == "NAME" else x) for x in DFS_COMMANDS[ci]]
-                    a, b = self._pair(v, ctx, "dfs", ["--file", img] + cmd, sb.path, label="dfs " + " ".join(cmd[:2]))
+                    gl = [["--file", img]]
+                    for i, g in enumerate(case.get("globals") or []):
+                        gl.insert((case.get("gpos", 0) + i) % (len(gl) + 1), g)
+                    opts = [x for g in gl for x in g]
+                    if len(gl) > 1:
+                        v.classes.append("with-other-global-options")
+                    a, b = self._pair(v, ctx, "dfs", opts + cmd, sb.path,
+                                      label="dfs " + " ".join([x for x in opts if x != img] + cmd[:2]))
                     if a.status == 0 or (a.status is not None and b"cannot use image" not in a.stderr
                                          and b"not recognized" not in a.stderr):
                         v.nontrivial = True
